@@ -23,8 +23,9 @@ FLAT_TYPES = [
     ("dec_i32", "INT32", 5, None, None), ("dec_i64", "INT64", 5, None, None),
     ("dec_f2", "FIXED_LEN_BYTE_ARRAY", 5, None, 2), ("dec_f5", "FIXED_LEN_BYTE_ARRAY", 5, None, 5),
     ("dec_f8", "FIXED_LEN_BYTE_ARRAY", 5, None, 8), ("dec_f12", "FIXED_LEN_BYTE_ARRAY", 5, None, 12),
+    ("dec_ba", "BYTE_ARRAY", 5, None, None),        # unscaled value as big-endian two's complement of minimal length
 ]
-DECIMALS = {"dec_i32": (9, 2), "dec_i64": (18, 3), "dec_f2": (4, 2), "dec_f5": (11, 4), "dec_f8": (18, 1), "dec_f12": (28, 6)}
+DECIMALS = {"dec_i32": (9, 2), "dec_i64": (18, 3), "dec_f2": (4, 2), "dec_f5": (11, 4), "dec_f8": (18, 1), "dec_f12": (28, 6), "dec_ba": (15, 2)}
 
 
 def _dec_unscaled(tname, v):
@@ -72,6 +73,8 @@ def gen_values(tname, n, rng, distinct=None):
                 ints[i] = e
         if ptype in ("INT32", "INT64"):
             return ints
+        if t[4] is None:
+            return [int(x).to_bytes(max(1, (int(x).bit_length() + 8) // 8), "big", signed=True) for x in ints]
         return [int(x).to_bytes(t[4], "big", signed=True) for x in ints]
     if distinct is not None and distinct > 0:
         base = gen_values(tname, distinct, rng)
